@@ -32,6 +32,13 @@ def handle : List Sexp → Option Sexp
   | [atom "dsge_crossover", p1, p2, draws] => do
       pure (res1 (fun (c : DSGEDna × DSGEDna) => list [dsgeSx c.1, dsgeSx c.2])
         (dsgeCrossover (← parseDSGE p1) (← parseDSGE p2) (mkSynSt (← draws.asNats?))))
+  | [atom "tree_mutate", spec, dec, p, draws] => do
+      let g := analyse (← parseSpec spec)
+      pure (res1 valSx (treeMutate g (← parseDecider dec) bigFuel (← parseVal p) (mkSynSt (← draws.asNats?))))
+  | [atom "tree_crossover", spec, dec, p1, p2, draws] => do
+      let g := analyse (← parseSpec spec)
+      pure (res1 (fun (c : Val × Val) => list [valSx c.1, valSx c.2])
+        (treeCrossover g (← parseDecider dec) bigFuel (← parseVal p1) (← parseVal p2) (mkSynSt (← draws.asNats?))))
   -- property predicates on implementation outputs
   | [atom "prop_locus", p1, p2, c] => do
       let p1 ← p1.asInts?; let p2 ← p2.asInts?; let c ← c.asInts?
